@@ -41,6 +41,48 @@ pub fn property() -> Property {
     add::<SMin>(&mut jobs, "ops+merges", Disc::Any, mixed(), false, &[], 4000, 40_000, 0.02);
     add::<SMerkle>(&mut jobs, "ops+merges", Disc::Any, mixed(), false, &[], 6000, 60_000, 0.02);
     add::<SVClock>(&mut jobs, "ops+merges", Disc::Any, mixed(), false, &[], 4000, 40_000, 0.02);
+    // plain regression scenario for the repaired defect MAP-T3b (bypasses the generators): two nested removes overtake
+    // the adds they observed and are parked; a partial key remove then subtracts its dots from both parked clocks,
+    // which become equal; before the fix one pending remove replaced the other and a removed member resurrected
+    jobs.push(Box::new(EJob {
+        label: "Map<Orswot>/regression: two parked removes whose clocks collapse (fixed finding MAP-T3b)".into(),
+        scope: "one hand-written history, 64 rounds with fresh hash seeds".into(),
+        f: std::sync::Arc::new(|shard, _n, _thorough, st: &mut Stats| {
+            use crdts::{CmRDT, Map, Orswot};
+            type M = Map<u8, Orswot<u8, u8>, u8>;
+            if shard != 0 {
+                return Ok(());
+            }
+            for round in 0..64 {
+                crate::engine::beat();
+                st.cases += 1;
+                let (mut r0, mut r1, mut r2, mut r3): (M, M, M, M) = (Map::new(), Map::new(), Map::new(), Map::new());
+                let op0 = r2.update(0, r2.read_ctx().derive_add_ctx(3), |s, c| s.add(0, c));
+                r2.apply(op0.clone());
+                let op1 = r0.update(0, r0.read_ctx().derive_add_ctx(1), |s, c| s.add_all(vec![0, 1], c));
+                r0.apply(op1.clone());
+                r1.apply(op0.clone());
+                r1.apply(op1.clone());
+                let op3 = r1.update(0, r1.read_ctx().derive_add_ctx(2), |s, _| s.rm(0, s.contains(&0).derive_rm_ctx()));
+                r1.apply(op3.clone());
+                let op4 = r1.update(0, r1.read_ctx().derive_add_ctx(2), |s, _| s.rm(1, s.contains(&1).derive_rm_ctx()));
+                r1.apply(op4.clone());
+                let op5 = r2.rm(0, r2.get(&0).derive_rm_ctx());
+                r2.apply(op5.clone());
+                // per-actor order only: both nested removes overtake the adds they observed
+                for op in [op3, op4, op0, op5, op1] {
+                    r3.apply(op);
+                }
+                let members: Vec<u8> = r3.get(&0).val.map(|s| s.read().val.into_iter().collect()).unwrap_or_default();
+                st.observations += 1;
+                if !members.is_empty() {
+                    return Err(Fail::new(format!("round {round}: members {members:?} are present although every add of them is covered by an applied remove (two parked removes with equal clocks: one was lost)")));
+                }
+                st.nontrivial_enumerated += 1;
+            }
+            Ok(())
+        }),
+    }));
     Property {
         id: "C08",
         rule: "Plans under per-actor (FIFO) delivery for Orswot and Map, and NO ordering for MVReg and the order-free types, generator biased to deliver the newest eligible op first so removes/overwrites overtake what they observed; sub-domain A edits only at causally closed replicas, B anywhere; with and without merges of replicas holding pending removes. Oracles: (1) whenever a replica's knowledge is causally closed (and for all replicas after a final settle phase that delivers everything in a generated per-actor order) its reads+contexts equal those of a fresh replica fed the same ops in causal order; (2) intermediate reads equal the specification model (a pending remove hides exactly what it covers). Non-trivial (types with removes) = some replica held a pending remove (a known remove whose context is not covered by the dots it knows) for >=1 step and the missing updates later arrived by op or by merge; (order-free types) = non-causal knowledge at some step with concurrent ops on one element; distinct = distinct Plan hash.".into(),
